@@ -100,6 +100,24 @@ func runC10(c *h.Ctx) {
 	runC10With(c, "", nKeys, issuers, i1, i5, true)
 	issuers, i1, i5 = c10IssuersReusedKeyObject(c, 2)
 	runC10With(c, "key-object-reused:", 2, issuers, i1, i5, false)
+	// issuers of one type whose key ids end in the SAME byte (the only part of the id a request carries)
+	issuers, i1, i5 = c10IssuersCollidingLastByte(c)
+	runC10With(c, "colliding-truncated-key-ids:", 2, issuers, i1, i5, false)
+}
+
+func c10IssuersCollidingLastByte(c *h.Ctx) (out []*c10Issuer, i1 []*type1.BasicPrivateIssuer, i5 []*type5.BatchedPrivateIssuer) {
+	last1, last5 := byte(c.Rng.Intn(256)), byte(c.Rng.Intn(256))
+	for i := 0; i < 2; i++ {
+		sk1 := voprfKeyWithLastByte(c, oprf.SuiteP384, last1)
+		a := type1.NewBasicPrivateIssuer(sk1)
+		out = append(out, &c10Issuer{"type1", oprf.SuiteP384, sk1, a.Verify, 48})
+		i1 = append(i1, a)
+		sk5 := voprfKeyWithLastByte(c, oprf.SuiteRistretto255, last5)
+		b := type5.NewBatchedPrivateIssuer(sk5)
+		out = append(out, &c10Issuer{"type5", oprf.SuiteRistretto255, sk5, b.Verify, 64})
+		i5 = append(i5, b)
+	}
+	return
 }
 
 func runC10With(c *h.Ctx, pfx string, nKeys int, issuers []*c10Issuer, i1 []*type1.BasicPrivateIssuer, i5 []*type5.BatchedPrivateIssuer, full bool) {
@@ -177,6 +195,23 @@ func runC10With(c *h.Ctx, pfx string, nKeys int, issuers []*c10Issuer, i1 []*typ
 		v = cloneTok(tok)
 		v.Nonce, v.Context, v.KeyID = nil, nil, cat(tok.Nonce, tok.Context, tok.KeyID)
 		c10Check(c, pfx+"fields:shifted-boundaries", is, v)
+		// the same concatenation of ALL fields cut at other places between key id and authenticator: the authenticator
+		// carried is then not the evaluation of the input carried
+		na := len(tok.Authenticator)
+		for _, k := range []int{1, 16, na / 2, na - 1, na} {
+			v = cloneTok(tok)
+			v.KeyID, v.Authenticator = cat(tok.KeyID, tok.Authenticator[:k]), append([]byte{}, tok.Authenticator[k:]...)
+			if c10Check(c, pfx+"fields:recut-keyid-authenticator", is, v) {
+				c.Violation("a token whose key id / authenticator boundary was moved (same concatenation) is accepted", map[string]any{"moved": k})
+			}
+			if k < 32 {
+				v = cloneTok(tok)
+				v.KeyID, v.Authenticator = append([]byte{}, tok.KeyID[:32-k]...), cat(tok.KeyID[32-k:], tok.Authenticator)
+				if c10Check(c, pfx+"fields:recut-keyid-authenticator", is, v) {
+					c.Violation("a token whose key id / authenticator boundary was moved (same concatenation) is accepted", map[string]any{"moved": -k})
+				}
+			}
+		}
 		for _, l := range []int{0, 1, 31, 33, 64} {
 			v = cloneTok(tok)
 			v.Nonce = rnd(c, l)
